@@ -257,7 +257,7 @@ Lemma show_item_nonempty x : show_item x <> [].
 Proof.
   destruct x; cbn [show_item]; try discriminate.
   - destruct (is_alpha c || is_digit c); [discriminate|]. destruct (c =? 10); discriminate.
-  - destruct (show_item x); discriminate.
+  - destruct (show_item x); [destruct k; discriminate|discriminate].
 Qed.
 
 Lemma show_no_dash r : has_prefix (show r) [45] = false.
